@@ -25,8 +25,8 @@ ASSUMPTIONS = [
     "strings are compared by code point; characters above U+FFFF are outside the alphabet",
 ]
 BOUND = {
-    "quick": "one key: rows 0..3 (0..4 for alphabets <= 4 values) over 'quick' alphabets of 9 kinds x dir; two keys: all 81 kind pairs x {NA,lo,hi}^2 rows 0..3 x 4 direction vectors; three keys: 12 kind triples rows 0..2 x 8 direction vectors",
-    "thorough": "one key: rows 0..4 (0..5 for alphabets <= 4 values) over 'thorough' alphabets x dir; two keys: all kind pairs rows 0..4; three keys: 12 kind triples rows 0..3",
+    "quick": "long periodic frames of 17 and 40 rows (period <= 3 over {NA,lo,hi}) per kind; one key: rows 0..3 (0..4 for alphabets <= 4 values) over 'quick' alphabets of 9 kinds x dir; two keys: all 81 kind pairs x {NA,lo,hi}^2 rows 0..3 x 4 direction vectors; three keys: 12 kind triples rows 0..2 x 8 direction vectors",
+    "thorough": "long periodic frames of 17, 40, 130, 300 rows (period <= 4); one key: rows 0..4 (0..5 for alphabets <= 4 values) over 'thorough' alphabets x dir; two keys: all kind pairs rows 0..4; three keys: 12 kind triples rows 0..3",
 }
 TIME_CAP = {"quick": 240, "thorough": 3000}
 
@@ -53,6 +53,10 @@ def shards(tier):
             out.append({"part": "two", "kinds": [k1, k2], "n": 4 if big else 3})
     for t in TRIPLES:
         out.append({"part": "three", "kinds": list(t), "n": 3 if big else 2})
+    # long periodic frames: sizes at which NumPy switches sorting algorithm (stability is size-dependent there)
+    for kind in KINDS:
+        for length in ([17, 40] if not big else [17, 40, 130, 300]):
+            out.append({"part": "long", "kind": kind, "length": length, "period": 3 if not big else 4})
     return out
 
 
@@ -166,6 +170,17 @@ def run_shard(shard, rec):
             toks = list(toks)
             cols = [["k", kind, toks]] + payload_cols(len(toks))
             check_case({"cols": cols, "keys": ["k"], "dirs": [[1], [-1]]}, rec)
+    elif shard["part"] == "long":
+        kind, length = shard["kind"], shard["length"]
+        alpha = V.alphabet(kind, "key")
+        for p in range(1, shard["period"] + 1):
+            for pat in itertools.product(alpha, repeat=p):
+                toks = [pat[i % p] for i in range(length)]
+                cols = [["k", kind, toks]] + payload_cols(length)
+                check_case({"cols": cols, "keys": ["k"], "dirs": [[1], [-1]]}, rec)
+                toks2 = [alpha[(i // 2) % len(alpha)] for i in range(length)]
+                cols = [["k0", kind, toks], ["k1", kind, toks2]] + payload_cols(length)
+                check_case({"cols": cols, "keys": ["k0", "k1"], "dirs": [[1, -1], [-1, 1]]}, rec)
     else:
         kinds, n = shard["kinds"], shard["n"]
         alphas = [V.alphabet(k, "key") for k in kinds]
